@@ -82,6 +82,7 @@ class FnSpec:
         self.optional_anchor = False
         self.rlimit = None
         self.nodecreases = False
+        self.word = None        # lift the closure bound to this word name out of the word table `key`
 
 
 def parse_key(key):
@@ -138,6 +139,7 @@ def parse_fn_blocks(lines, origin):
                 elif a == 'assumed': fs.assumed = True
                 elif a.startswith('rlimit='): fs.rlimit = int(a[7:])
                 elif a == 'nodecreases': fs.nodecreases = True
+                elif a.startswith('word='): fs.word = a[5:].strip('"')
                 else: raise AssembleError('%s: bad //@fn option %r' % (fs.origin, a))
             i += 1
             cur = fs.clauses
@@ -472,6 +474,116 @@ def find_line_with(lines, sub, n, lo):
     return None
 
 
+def _mangle(name):
+    out = ''
+    for ch in name:
+        if ch.isalnum() or ch == '_':
+            out += ch
+        else:
+            out += {'!': '_bang', '>': '_to', '-': '_', '?': '_q', '<': '_lt', '=': '_eq', '+': '_plus', '*': '_star', '/': '_slash'}.get(ch, '_x%02x' % ord(ch))
+    return out
+
+
+def lift_word(src, loc, word, where):
+    """Rword: the word table.  `XS.defword("name", |xs| BODY)?;` inside the table function (after expanding the
+    file's own macro_rules invocations textually) becomes `fn verif_word_<name>(xs: &mut Xstate) -> Xresult { BODY }`;
+    a function path `XS.defword("name", f)?;` becomes `{ f(xs) }`.  -> (fn text, line_start, line_end, original)"""
+    text = src.text
+    body = text[loc['body_open']:loc['end']]
+    base = loc['body_open']
+    # macro_rules of the file:  name -> (params, body)
+    macros = {}
+    for m in re.finditer(r'macro_rules!\s*(\w+)\s*\{', text):
+        toks = code_tokens(text[m.end() - 1:])
+        T = lambda j: text[m.end() - 1 + toks[j][1]:m.end() - 1 + toks[j][2]]
+        try:
+            c = match_close(text[m.end() - 1:], toks, 0)
+        except AssembleError:
+            continue
+        # ( params ) => { body } ;
+        if T(1) != '(':
+            continue
+        pc = match_close(text[m.end() - 1:], toks, 1)
+        params = [T(j + 1) for j in range(2, pc) if T(j) == '$']
+        j = pc + 1
+        while j < c and T(j) != '{':
+            j += 1
+        if j >= c:
+            continue
+        bc = match_close(text[m.end() - 1:], toks, j)
+        mb = text[m.end() - 1 + toks[j][2]:m.end() - 1 + toks[bc][1]]
+        macros[m.group(1)] = (params, mb)
+    # statements of the table, with the line each one comes from
+    stmts = []      # (line, text)
+    toks = code_tokens(body)
+    T = lambda j: body[toks[j][1]:toks[j][2]]
+    j = 1
+    while j < len(toks) - 1:
+        if toks[j][0] == 'ident' and T(j) in macros and T(j + 1) == '!' and T(j + 2) == '(':
+            c = match_close(body, toks, j + 2)
+            args = [a.strip() for a in body[toks[j + 2][2]:toks[c][1]].split(',')]
+            params, mb = macros[T(j)]
+            if len(args) == len(params):
+                ex = mb
+                for pn, av in zip(params, args):
+                    ex = re.sub(r'\$' + pn + r'\b', av, ex)
+                line = src.line_of(base + toks[j][1])
+                for st in ex.split(';'):
+                    if st.strip():
+                        stmts.append((line, line, st.strip() + ';'))
+            j = c + 1
+            continue
+        if toks[j][0] == 'ident' and T(j + 1) == '.' and T(j + 2) == 'defword' and T(j + 3) == '(':
+            c = match_close(body, toks, j + 3)
+            stmts.append((src.line_of(base + toks[j][1]), src.line_of(base + toks[c][2]), body[toks[j][1]:toks[c][2]] + '?;'))
+            j = c + 1
+            continue
+        j += 1
+    hits = []
+    for (l0, l1, st) in stmts:
+        tk = code_tokens(st)
+        S = lambda k: st[tk[k][1]:tk[k][2]]
+        if len(tk) < 6 or S(1) != '.' or S(2) != 'defword' or S(3) != '(':
+            continue
+        c = match_close(st, tk, 3)
+        # first argument: a string literal or concat!(..)
+        k = 4
+        if S(k) == 'concat' and S(k + 1) == '!':
+            cc = match_close(st, tk, k + 2)
+            parts = []
+            for q in range(k + 3, cc):
+                t = S(q)
+                if t == ',':
+                    continue
+                parts.append(t[1:-1] if t.startswith('"') else t)
+            nm = ''.join(parts)
+            k = cc + 1
+        elif S(k).startswith('"'):
+            nm = S(k)[1:-1]
+            k += 1
+        else:
+            continue
+        if S(k) != ',':
+            continue
+        arg = st[tk[k][2]:tk[c][1]].strip()
+        if nm == word:
+            hits.append((l0, l1, arg, st))
+    if len(hits) != 1:
+        raise AssembleError('anchor lost: %s: word "%s" is bound %d times in the word table' % (where, word, len(hits)))
+    l0, l1, arg, st = hits[0]
+    m = re.match(r'^\|\s*(\w+)\s*\|\s*(.*)$', arg, re.S)
+    if m:
+        var, b = m.group(1), m.group(2).strip()
+        if not (b.startswith('{') and b.endswith('}')):
+            b = '{\n    ' + b + '\n}'
+    elif re.match(r'^[\w:]+$', arg):
+        var, b = 'xs', '{\n    ' + arg + '(xs)\n}'
+    else:
+        raise AssembleError('%s: word "%s": binding `%s` is neither a closure nor a function path' % (where, word, arg[:60]))
+    fn = 'fn verif_word_%s(%s: &mut Xstate) -> Xresult %s' % (_mangle(word), var, b)
+    return fn, l0, l1, st
+
+
 def expand_fn(fs, assumed_override=False, notes=None):
     """-> (text, meta)"""
     owner, name = parse_key(fs.key)
@@ -481,10 +593,15 @@ def expand_fn(fs, assumed_override=False, notes=None):
     except ScanError as e:
         raise AssembleError('anchor lost: %s' % e)
     orig = src.text[loc['start']:loc['end']]
-    sha = hashlib.sha256(orig.encode()).hexdigest()
-    body_open = loc['body_open'] - loc['start']
-    text = orig
     deltas = []
+    if fs.word is not None:
+        where0 = '%s %s' % (fs.src, fs.key)
+        orig, l0, l1, stmt = lift_word(src, loc, fs.word, where0)
+        loc = dict(loc, line_start=l0, line_end=l1, attrs='')
+        deltas.append(dict(rule='Rword', original=stmt, rewritten=orig.split('{')[0].strip() + ' { <the bound closure body / call of the bound function> }'))
+    sha = hashlib.sha256(orig.encode()).hexdigest()
+    body_open = (orig.index('{') if fs.word is not None else loc['body_open'] - loc['start'])
+    text = orig
     if loc['attrs'].strip():
         deltas.append(dict(rule='attrs', original=loc['attrs'].strip(), rewritten='(dropped)'))
     assumed = fs.assumed or assumed_override
@@ -697,7 +814,7 @@ def expand_fn(fs, assumed_override=False, notes=None):
             out = '#[verifier::exec_allows_no_decreases_clause]\n' + out
     meta = dict(name=fs.key, file=fs.src, lines=[loc['line_start'], loc['line_end']], sha256=sha,
                 mode='assumed' if assumed else 'verified', props=fs.props, deltas=deltas,
-                contract=fs.origin, lost_anchors=lost, vname=fs.rename or name,
+                contract=fs.origin, lost_anchors=lost, vname=('verif_word_' + _mangle(fs.word)) if fs.word is not None else (fs.rename or name),
                 owner=owner)
     return out, meta
 
